@@ -18,13 +18,17 @@ import (
 	"strconv"
 	"strings"
 	"sync"
+	"sync/atomic"
 	"time"
 	"unsafe"
 
+	"github.com/caddyserver/certmagic"
 	"github.com/tmpim/casket"
+	"github.com/tmpim/casket/casketfile"
 	_ "github.com/tmpim/casket/caskethttp"
 	"github.com/tmpim/casket/caskethttp/httpserver"
 	"github.com/tmpim/casket/caskethttp/limits"
+	"github.com/tmpim/casket/caskethttp/proxy"
 	"github.com/tmpim/casket/caskettls"
 )
 
@@ -60,6 +64,14 @@ type c17In struct {
 	Live  bool       `json:"live,omitempty"`
 	// hdr431: Limit = header limit, ReqBytes = size of the request's header block
 	ReqBytes int `json:"reqbytes,omitempty"`
+	// servers: Sites as for listener; every site of the group serves TLS or none does; HTTP/2 switched off; QUIC flag
+	TLS   bool `json:"tls,omitempty"`
+	H2Off bool `json:"h2off,omitempty"`
+	QUIC  bool `json:"quic,omitempty"`
+	// siteseq: a sequence of uploads (chunked? 0/1, body length) to one running site; Consumer 0 proxy, 1 buffering
+	// proxy; Live = a site started from a Casketfile, else the limits middleware + proxy.Proxy served by net/http
+	// (the upstream hosts' Fails are then observable)
+	Seq [][2]int `json:"seq,omitempty"`
 }
 
 type scriptReader struct {
@@ -143,6 +155,10 @@ func c17Run(in0 interface{}) Result {
 		return c17RunListener(in)
 	case "hdr431":
 		return c17RunHdr431(in)
+	case "servers":
+		return c17RunServers(in)
+	case "siteseq":
+		return c17RunSiteSeq(in)
 	case "read":
 		var sb strings.Builder
 		sb.WriteString("limits {\n")
@@ -649,6 +665,59 @@ func c17GenDeep(r *Rand, tier string) []interface{} {
 			}
 		}
 	}
+	// ---- every server object of a listener: TLS sites or not, HTTP/2 on/off, QUIC flag on/off ----
+	nServers, nServersLive := 260, 24
+	if tier == "thorough" {
+		nServers, nServersLive = 3000, 200
+	}
+	for i := 0; i < nServers+nServersLive; i++ {
+		in := &c17In{Kind: "servers", Live: i >= nServers, Sites: mkSites(), TLS: r.Chance(75), QUIC: r.Chance(65), H2Off: r.Chance(12)}
+		if i%5 == 0 { // every site sets a header limit, none an idle timeout
+			for j := range in.Sites {
+				in.Sites[j][8] = []int64{1, 512, 2048, 4096, 1 << 20}[r.Intn(5)]
+				in.Sites[j][6], in.Sites[j][7] = 0, 0
+			}
+		}
+		if i%5 == 1 { // no positive idle timeout anywhere (explicit none allowed)
+			for j := range in.Sites {
+				in.Sites[j][7] = 0
+			}
+		}
+		out = append(out, in)
+	}
+	// ---- sequences of uploads on one site whose upstream counts failures: over the limit, then within ----
+	seqLimits := []int64{1, 10, 5000}
+	nSeqRandom := 2
+	if tier == "thorough" {
+		seqLimits = []int64{1, 2, 10, 100, 4096, 5000, 32769, 70000}
+		nSeqRandom = 8
+	}
+	for _, lim := range seqLimits {
+		l := int(lim)
+		for consumer := 0; consumer < 2; consumer++ {
+			for _, live := range []bool{false, true} {
+				seqs := [][][2]int{
+					{{1, l + 1}, {0, l}, {1, l - 1}},
+					{{0, l + 1}, {1, l}, {0, l + r.Range(2, 900)}, {0, l}},
+					{{0, l}, {1, l + r.Range(1, 3)}, {1, l}},
+				}
+				for k := 0; k < nSeqRandom; k++ {
+					var sq [][2]int
+					for n := r.Range(3, 6); n > 0; n-- {
+						ch := 0
+						if r.Bool() {
+							ch = 1
+						}
+						sq = append(sq, [2]int{ch, l + r.Range(-2, 3)})
+					}
+					seqs = append(seqs, sq)
+				}
+				for _, sq := range seqs {
+					out = append(out, &c17In{Kind: "siteseq", Consumer: consumer, Live: live, Limit: lim, Seq: sq})
+				}
+			}
+		}
+	}
 	// ---- header-size limit as enforced by the listener ----
 	for _, h := range []int64{1, 1024, 8192} {
 		for _, d := range []int{-4000, -1, 0, 1, 2, 5000} {
@@ -661,7 +730,7 @@ func c17GenDeep(r *Rand, tier string) []interface{} {
 func init() {
 	register(&Property{
 		ID: "C17", Imports: "V.Lib V.C17_Model", Judge: "judge",
-		Rule: "cases = real limits directive (parse+sort+Limit.ServeHTTP+maxBytesReader) on scripted readers; MaxBytesReader directly with any int64 limit on scripted and count-claiming readers; size strings through the directive's setup; NewServer merges per field, on whole hand-built site groups and on Casketfiles started with casket.Start; proxy 413 in-process; real sites over loopback (proxy / buffering proxy / fastcgi x Content-Length / chunked x lengths around the limit, pipelined follow-up); 431 at the merged header limit. non-trivial = read that ended in EOF/too-large under a non-empty table, read64 that ended in an error/panic, count with a non-empty script, accepted size string, merge with >=2 sites setting a positive value, over-limit upload, over-limit header; distinct = distinct Coq case term",
+		Rule: "cases = real limits directive (parse+sort+Limit.ServeHTTP+maxBytesReader) on scripted readers; MaxBytesReader directly with any int64 limit on scripted and count-claiming readers; size strings through the directive's setup; NewServer merges per field, on whole hand-built site groups and on Casketfiles started with casket.Start; proxy 413 in-process; real sites over loopback (proxy / buffering proxy / fastcgi x Content-Length / chunked x lengths around the limit, pipelined follow-up); 431 at the merged header limit; NewServer on groups with TLS sites or not, HTTP/2 on/off and the QUIC flag on/off (hand-built and started from Casketfiles with `tls cert key`): EVERY server object it creates (TCP http.Server and the HTTP/3 server's MaxHeaderBytes / QUICConfig.MaxIdleTimeout) against the merged values; SEQUENCES of uploads (over the limit, then within it, both framings) on one running site whose proxy upstream counts failures (max_fails 1, fail_timeout 1h), each request judged, the upstream hosts' Fails observed. non-trivial = read that ended in EOF/too-large under a non-empty table, read64 that ended in an error/panic, count with a non-empty script, accepted size string, merge with >=2 sites setting a positive value, over-limit upload, over-limit header; distinct = distinct Coq case term",
 		Gen: c17Gen,
 		Decode: func(raw json.RawMessage) (interface{}, error) {
 			in := &c17In{}
@@ -1229,6 +1298,310 @@ func c17RunListener(in *c17In) Result {
 
 var _ = sort.Strings
 var _ = strconv.Itoa
+
+// ---- every server object NewServer creates for one listener ----
+
+const c17SigQuicIdle = "servers:quic:idle-timeout-not-carried"
+
+// c17H3Of reads the HTTP/3 server NewServer may have attached to the listener (unexported field quicServer):
+// its MaxHeaderBytes and the MaxIdleTimeout of its QUICConfig (0 when there is no QUICConfig).
+func c17H3Of(srv *httpserver.Server) (present bool, maxhdr, idle int64, ok bool) {
+	v := reflect.ValueOf(srv).Elem().FieldByName("quicServer")
+	if !v.IsValid() || v.Kind() != reflect.Ptr {
+		return false, 0, 0, false
+	}
+	if v.IsNil() {
+		return false, 0, 0, true
+	}
+	q := v.Elem()
+	mh := q.FieldByName("MaxHeaderBytes")
+	qc := q.FieldByName("QUICConfig")
+	if !mh.IsValid() || !qc.IsValid() {
+		return true, 0, 0, false
+	}
+	if qc.Kind() == reflect.Ptr && !qc.IsNil() {
+		if f := qc.Elem().FieldByName("MaxIdleTimeout"); f.IsValid() {
+			idle = f.Int()
+		}
+	}
+	return true, mh.Int(), idle, true
+}
+
+func c17RunServers(in *c17In) Result {
+	fail := func(msg string) Result {
+		return Result{Term: "(CStatus false 0%Z)", Obs: msg, Class: "servers:setup-error", Sig: "servers:setup-error", Direct: msg}
+	}
+	oldQ, oldH2 := httpserver.QUIC, httpserver.HTTP2
+	defer func() { httpserver.QUIC, httpserver.HTTP2 = oldQ, oldH2 }()
+	httpserver.QUIC, httpserver.HTTP2 = false, true
+	dsrv, err := httpserver.NewServer("127.0.0.1:0", []*httpserver.SiteConfig{{TLS: new(caskettls.Config)}})
+	if err != nil {
+		return fail("default NewServer: " + err.Error())
+	}
+	httpserver.QUIC, httpserver.HTTP2 = in.QUIC, !in.H2Off
+	var srv *httpserver.Server
+	if in.Live {
+		c06Setup() // test certificate and key files
+		var sb strings.Builder
+		for i, s := range in.Sites {
+			scheme := "http"
+			if in.TLS {
+				scheme = "https"
+			}
+			fmt.Fprintf(&sb, "%s://s%d.test:0 {\n", scheme, i)
+			if in.TLS {
+				fmt.Fprintf(&sb, " tls %s %s {\n  no_redirect\n }\n", c06Files.cert, c06Files.key)
+			}
+			if s[0] != 0 || s[2] != 0 || s[4] != 0 || s[6] != 0 {
+				sb.WriteString(" timeouts {\n")
+				for f, name := range []string{"read", "header", "write", "idle"} {
+					if s[2*f] != 0 {
+						fmt.Fprintf(&sb, "  %s %s\n", name, c17Dur(s[2*f+1]))
+					}
+				}
+				sb.WriteString(" }\n")
+			}
+			if s[8] != 0 {
+				fmt.Fprintf(&sb, " limits {\n  header %d\n }\n", s[8])
+			}
+			sb.WriteString("}\n")
+		}
+		stopSite()
+		casket.Quiet = true
+		inst, err := casket.Start(casket.CasketfileInput{Contents: []byte(sb.String()), Filepath: "Casketfile", ServerTypeName: "http"})
+		if err != nil {
+			return fail("start: " + err.Error() + "\n" + sb.String())
+		}
+		srvs := inst.Servers()
+		if len(srvs) != 1 {
+			inst.Stop()
+			return fail(fmt.Sprintf("%d listeners for one port", len(srvs)))
+		}
+		hs, ok := c17ServerOf(srvs[0])
+		inst.Stop()
+		if !ok {
+			return fail("cannot reach the listener's http.Server")
+		}
+		srv = hs
+	} else {
+		var group []*httpserver.SiteConfig
+		for i, s := range in.Sites {
+			tc := new(caskettls.Config)
+			if in.TLS {
+				tc = &caskettls.Config{Hostname: fmt.Sprintf("s%d.test", i), Enabled: true, Manager: certmagic.NewDefault()}
+				caskettls.SetDefaultTLSParams(tc)
+			}
+			c := &httpserver.SiteConfig{TLS: tc}
+			c.Timeouts.ReadTimeoutSet, c.Timeouts.ReadTimeout = s[0] != 0, time.Duration(s[1])
+			c.Timeouts.ReadHeaderTimeoutSet, c.Timeouts.ReadHeaderTimeout = s[2] != 0, time.Duration(s[3])
+			c.Timeouts.WriteTimeoutSet, c.Timeouts.WriteTimeout = s[4] != 0, time.Duration(s[5])
+			c.Timeouts.IdleTimeoutSet, c.Timeouts.IdleTimeout = s[6] != 0, time.Duration(s[7])
+			c.Limits.MaxRequestHeaderSize = s[8]
+			group = append(group, c)
+		}
+		srv, err = httpserver.NewServer("127.0.0.1:0", group)
+		if err != nil {
+			return fail("NewServer: " + err.Error())
+		}
+	}
+	got := srv.Server
+	present, h3hdr, h3idle, ok := c17H3Of(srv)
+	if !ok {
+		return fail("cannot read the listener's HTTP/3 server (field quicServer / MaxHeaderBytes / QUICConfig)")
+	}
+	tlsOn := got.TLSConfig != nil
+	var sites []string
+	idlePos, hdrSet := false, false
+	for _, s := range in.Sites {
+		tv := func(i int) string { return cPair(cBool(s[i] != 0), cZ(s[i+1])) }
+		sites = append(sites, fmt.Sprintf("{| s_read := %s; s_rhdr := %s; s_write := %s; s_idle := %s; s_maxhdr := %s |}", tv(0), tv(2), tv(4), tv(6), cZ(s[8])))
+		if s[6] != 0 && s[7] > 0 {
+			idlePos = true
+		}
+		if s[8] != 0 {
+			hdrSet = true
+		}
+	}
+	path := "built"
+	if in.Live {
+		path = "live"
+	}
+	oh3 := "None"
+	obs := map[string]interface{}{"read": got.ReadTimeout.String(), "header": got.ReadHeaderTimeout.String(), "write": got.WriteTimeout.String(),
+		"idle": got.IdleTimeout.String(), "max_header_bytes": got.MaxHeaderBytes, "tls": tlsOn, "http3_server": present}
+	sig := fmt.Sprintf("servers:%s:tls=%v:quic=%v", path, in.TLS, present)
+	if present {
+		oh3 = fmt.Sprintf("(Some (%s, %s))", cZ(h3hdr), cZ(h3idle))
+		obs["http3_max_header_bytes"], obs["http3_max_idle_timeout"] = h3hdr, time.Duration(h3idle).String()
+		// F-C17-7: everything else as it should be, only the idle timeout the sites configure is not given to the HTTP/3 server
+		if idlePos && h3idle == 0 && h3hdr == int64(got.MaxHeaderBytes) {
+			sig = c17SigQuicIdle
+		}
+	}
+	// (a started plain-HTTP server may have been given an empty tls.Config by net/http's HTTP/2 setup in Serve)
+	if !in.Live && in.TLS != tlsOn {
+		return fail(fmt.Sprintf("TLS sites %v but the listener's TLSConfig present = %v", in.TLS, tlsOn))
+	}
+	return Result{Term: cApp("CServers", c17ServerTerm(dsrv.Server), cList(sites), cBool(in.TLS), cBool(!in.H2Off), cBool(in.QUIC), c17ServerTerm(got), oh3),
+		Obs: obs, Sig: sig, Class: fmt.Sprintf("servers:%s:tls=%v:h2=%v:quic-flag=%v:http3=%v:header-limit-set=%v", path, in.TLS, !in.H2Off, in.QUIC, present, hdrSet),
+		Nontrivial: present || len(in.Sites) >= 2}
+}
+
+// ---- sequences of uploads on one running site whose proxy upstream counts failures ----
+
+func c17SeqSiteText(limit int64) string {
+	return fmt.Sprintf("limits {\n body /sq %d\n body /sb %d\n}\n"+
+		"proxy /sq %s {\n max_fails 1\n fail_timeout 1h\n}\n"+
+		"proxy /sb %s %s {\n try_duration 300ms\n try_interval 20ms\n max_fails 1\n fail_timeout 1h\n}\nstatus 204 /ping\n",
+		limit, limit, c17Backends[0].URL, c17Backends[0].URL, c17Backends[1].URL)
+}
+
+func c17RunSiteSeq(in *c17In) Result {
+	c17SiteSetup()
+	fail := func(msg string) Result {
+		return Result{Term: "(CStatus false 0%Z)", Obs: msg, Class: "siteseq:setup-error", Sig: "siteseq:setup-error", Direct: msg}
+	}
+	if in.Consumer < 0 || in.Consumer > 1 {
+		return fail("bad consumer")
+	}
+	if c17Stuck >= 2 {
+		r := fail("site case skipped: earlier uploads were never answered")
+		r.Sig, r.Class = "site:stuck", "site:stuck"
+		return r
+	}
+	var addr, target string
+	var hosts proxy.HostPool
+	if in.Live {
+		site, err := getSite(c17SeqSiteText(in.Limit))
+		if err != nil {
+			return fail("site start: " + err.Error())
+		}
+		addr, target = site.addr, []string{"/sq", "/sb"}[in.Consumer]
+	} else {
+		cfgL, err := setupDirective("limits", fmt.Sprintf("limits {\n body / %d\n}\n", in.Limit))
+		if err != nil {
+			return fail("limits: " + err.Error())
+		}
+		text := fmt.Sprintf("proxy / %s {\n max_fails 1\n fail_timeout 1h\n}\n", c17Backends[0].URL)
+		if in.Consumer == 1 {
+			text = fmt.Sprintf("proxy / %s %s {\n try_duration 300ms\n try_interval 20ms\n max_fails 1\n fail_timeout 1h\n}\n", c17Backends[0].URL, c17Backends[1].URL)
+		}
+		ups, err := proxy.NewStaticUpstreams(casketfile.NewDispenser("Testfile", strings.NewReader(text)), "")
+		if err != nil || len(ups) != 1 {
+			return fail(fmt.Sprint("proxy block rejected: ", err))
+		}
+		defer ups[0].Stop()
+		hosts = hostsOf(ups[0])
+		h := compile(cfgL.Middleware(), proxy.Proxy{Next: handlerFunc(func(w http.ResponseWriter, r *http.Request) (int, error) { return 404, nil }), Upstreams: ups})
+		srv := httptest.NewServer(http.HandlerFunc(func(w http.ResponseWriter, r *http.Request) {
+			if st, _ := h.ServeHTTP(w, r); st >= 400 {
+				w.WriteHeader(st)
+			}
+		}))
+		defer srv.Close()
+		addr, target = strings.TrimPrefix(srv.URL, "http://"), "/up"
+	}
+	kind := []string{"proxy", "proxy-buffered"}[in.Consumer]
+	var items, pattern []string
+	var obs []map[string]interface{}
+	direct := ""
+	anyOver, afterOver := false, false
+	for _, q := range in.Seq {
+		chunked, n := q[0] != 0, q[1]
+		if n < 0 {
+			n = 0
+		}
+		c17Mu.Lock()
+		c17Seq++
+		id := fmt.Sprintf("c17s-%d", c17Seq)
+		c17Mu.Unlock()
+		body := bodyOf(n)
+		var sb bytes.Buffer
+		fmt.Fprintf(&sb, "POST %s HTTP/1.1\r\nHost: %s\r\nX-Case: %s\r\nConnection: close\r\nContent-Type: application/octet-stream\r\n", target, addr, id)
+		if chunked {
+			sb.WriteString("Transfer-Encoding: chunked\r\n\r\n")
+			step := 1 + n/5
+			for i := 0; i < len(body); i += step {
+				j := i + step
+				if j > len(body) {
+					j = len(body)
+				}
+				fmt.Fprintf(&sb, "%x\r\n", j-i)
+				sb.Write(body[i:j])
+				sb.WriteString("\r\n")
+			}
+			sb.WriteString("0\r\n\r\n")
+		} else {
+			fmt.Fprintf(&sb, "Content-Length: %d\r\n\r\n", len(body))
+			sb.Write(body)
+		}
+		status := -1
+		conn, err := net.DialTimeout("tcp", addr, 2*time.Second)
+		if err != nil {
+			return fail("dial: " + err.Error())
+		}
+		conn.SetDeadline(time.Now().Add(10 * time.Second))
+		go conn.Write(sb.Bytes())
+		r1, err := http.ReadResponse(bufio.NewReader(conn), &http.Request{Method: "POST"})
+		if ne, ok := err.(net.Error); ok && ne.Timeout() {
+			conn.Close()
+			c17Stuck++
+			r := fail("upload was not answered within 10s")
+			r.Sig, r.Class = "site:stuck", "site:stuck"
+			return r
+		}
+		if err == nil {
+			io.Copy(io.Discard, r1.Body)
+			r1.Body.Close()
+			status = r1.StatusCode
+		}
+		conn.Close()
+		over := int64(n) > in.Limit
+		backend, prefix := int64(-1), true
+		wait := 2 * time.Second
+		if status == 502 || in.Consumer == 1 && over && (status == 413 || status == 400) {
+			wait = 40 * time.Millisecond // nobody was contacted
+		}
+		for deadline := time.Now().Add(wait); ; time.Sleep(2 * time.Millisecond) {
+			c17Mu.Lock()
+			rec, ok := c17Seen[id]
+			delete(c17Seen, id)
+			c17Mu.Unlock()
+			if ok {
+				backend, prefix = int64(rec.n), rec.prefix
+				break
+			}
+			if time.Now().After(deadline) {
+				break
+			}
+		}
+		fails := int64(-1)
+		if hosts != nil {
+			fails = 0
+			for _, h := range hosts {
+				fails += int64(atomic.LoadInt32(&h.Fails))
+			}
+		}
+		if over {
+			anyOver = true
+			pattern = append(pattern, "over")
+		} else {
+			if anyOver {
+				afterOver = true
+			}
+			pattern = append(pattern, "within")
+		}
+		items = append(items, fmt.Sprintf("(%s, %s, (%s, %s, %s, %s))", cBool(chunked), cNat(n), cZ(int64(status)), cZ(backend), cBool(prefix), cZ(fails)))
+		obs = append(obs, map[string]interface{}{"chunked": chunked, "bodylen": n, "status": status, "backend_received": backend, "backend_prefix_ok": prefix, "upstream_fails_after": fails})
+	}
+	mode := "built"
+	if in.Live {
+		mode = "live"
+	}
+	sig := fmt.Sprintf("siteseq:%s:%s", kind, mode)
+	return Result{Term: cApp("CSiteSeq", cN(uint64(in.Consumer)), cZ(in.Limit), cList(items)), Obs: obs, Direct: direct,
+		Sig: sig, Class: fmt.Sprintf("%s:within-after-over=%v", sig, afterOver), Nontrivial: afterOver}
+}
 
 // c17ServerOf reaches the *httpserver.Server behind a started listener (casket.ServerListener
 // keeps it in an unexported field and offers no accessor).
